@@ -35,8 +35,8 @@ package domain
 //@ ghost var updMult int
 //@ ghost var updURL string
 //@ ghost var updErr error
-//@ ghost var repoAll []*Endpoint
 //@ ghost field spawned bool
+//@ ghost field gauge int
 
 //@ interface EndpointRepository.UpdateEndpoint
 //@   requires endpoint != nil
@@ -51,7 +51,18 @@ package domain
 
 //@ interface EndpointRepository.Exists
 //@ interface EndpointRepository.GetAll
-//@   ensures err == nil ==> res == repoAll && allNonNil(res)
+//@   ensures err == nil ==> allNonNil(res)
+//@ interface EndpointRepository.GetHealthy
+//@   ensures err == nil ==> forall k int :: 0 <= k && k < len(res) ==> res[k] != nil && fresh(res[k]) && res[k].Status == "healthy"
+//@ interface EndpointRepository.GetRoutable
+//@   ensures err == nil ==> forall k int :: 0 <= k && k < len(res) ==> res[k] != nil && fresh(res[k]) && isRoutable(res[k].Status)
+
+//@ interface EndpointSelector.IncrementConnections
+//@   modifies ghost(endpoint).gauge
+//@   ensures ghost(endpoint).gauge == old(ghost(endpoint).gauge) + 1
+//@ interface EndpointSelector.DecrementConnections
+//@   modifies ghost(endpoint).gauge
+//@   ensures ghost(endpoint).gauge == old(ghost(endpoint).gauge) - 1
 
 //@ func NewHealthCheckError
 //@   property C07
